@@ -417,6 +417,11 @@ pub fn run(ctx: &Ctx) -> i32 {
             ("NOT x IS y".into(), "NOT (x IS y)".into()),
             ("x IS - y".into(), "x IS (- y)".into()),
             ("x = y IS z".into(), "(x = y) IS z".into()),
+            ("CASE WHEN p THEN 1 ELSE CASE WHEN q THEN 10 ELSE 20 END + 1 END".into(), "CASE WHEN p THEN 1 ELSE ((CASE WHEN q THEN 10 ELSE 20 END) + 1) END".into()),
+            ("CASE WHEN p THEN 1 ELSE CASE WHEN q THEN 10 ELSE 20 END = 2 END".into(), "CASE WHEN p THEN 1 ELSE ((CASE WHEN q THEN 10 ELSE 20 END) = 2) END".into()),
+            ("CASE WHEN p THEN 1 ELSE CASE WHEN q THEN 10 ELSE 20 END::text END".into(), "CASE WHEN p THEN 1 ELSE ((CASE WHEN q THEN 10 ELSE 20 END)::text) END".into()),
+            ("CASE WHEN p THEN CASE WHEN q THEN 1 ELSE 2 END * 3 ELSE 4 END".into(), "CASE WHEN p THEN ((CASE WHEN q THEN 1 ELSE 2 END) * 3) ELSE 4 END".into()),
+            ("CASE WHEN CASE WHEN q THEN p ELSE q END AND p THEN 1 ELSE 2 END".into(), "CASE WHEN ((CASE WHEN q THEN p ELSE q END) AND p) THEN 1 ELSE 2 END".into()),
         ];
         for n in [70usize, 300, 1000] {
             let min: Vec<String> = (0..n).map(|i| format!("x = {} AND y = {}", i, i + 1)).collect();
